@@ -224,7 +224,11 @@ def check(run, views, tier):
                 success_paths += 1
                 send_t = sends[-1]
                 reach_nodes = {id(x[3]) for x in subterms(send_t) if x[0] == "call" and len(x) > 3}
-                fors = [t for t, _ in calls if t[1] == "<for>" and flag_term(t[2][0], ROOTS)]
+                def _base(it):
+                    while is_call(it) and it[1].split("::")[-1] in ("iter", "into_iter") and it[2]:
+                        it = it[2][0]       # `roots.iter()` iterates the same list as `&roots`
+                    return it
+                fors = [t for t, _ in calls if t[1] == "<for>" and flag_term(_base(t[2][0]), ROOTS)]
                 sunk = False
                 split_seen = set()
                 why = "no loop over self.0.%s on this path" % ROOTS
